@@ -561,7 +561,18 @@ func c06GatedTimerCase(c *mon.Case) {
 		w.k.SetKey("a", true)
 		obj = w.k
 	}
-	g := mon.NewGate(verifhook.KeyedTimer, obj, 1)
+	var g *mon.Gate
+	if refc {
+		// aim at the inner Keyed of this KeyedRefCount (timers of other, finished cases must not be mistaken for ours)
+		ptr := mon.FieldPtr(w.rc, "keyed")
+		if ptr == 0 {
+			c.Inconclusive("cannot locate the inner Keyed")
+			return
+		}
+		g = mon.NewGatePtr(verifhook.KeyedTimer, ptr, 1)
+	} else {
+		g = mon.NewGate(verifhook.KeyedTimer, obj, 1)
+	}
 	if refc {
 		ref.Release()
 	} else {
